@@ -55,7 +55,7 @@ def plan(tier, seed):
 
 
 def mandatory(tier):
-    return [f"model/{m}" for m in MODELS] + [f"op/{o}" for o in OPS] + [f"kind/{k}" for k in X.KINDS]
+    return [f"model/{m}" for m in MODELS] + [f"op/{o}" for o in OPS] + [f"kind/{k}" for k in X.KINDS] + [f"grid_/at_new_samples/{k}" for k in ("resize", "other_domain", "same_shape")]
 
 
 class Subject:
@@ -339,7 +339,7 @@ def grid_op(ctx, rng, info, subj, hist, desc):
         # is re-computed by scaling and squaring on the finer grid (interpolation-level change)
         bound_rel, floor = (1e-3, 1e-5) if subj.name == "FreeFormDeformation" else (0.05, 1e-4)
     else:
-        choice = int(rng.integers(0, 4))
+        choice = int(rng.integers(0, 5))
         dense_exact = 1e-3 if subj.name == "DisplacementFieldTransform" else 0.03
         if choice == 0:
             g2 = g.resize(tuple(int(rng.integers(max(5, n // 2 + 1), 2 * n)) for n in g.size()))
@@ -355,7 +355,7 @@ def grid_op(ctx, rng, info, subj, hist, desc):
             g2 = g.resize(tuple(2 * n - 1 for n in g.size()))
             desc.update(kind="refine", size=list(g2.size()))
             bound_rel, floor = dense_exact, 1e-5
-        else:
+        elif choice == 3:
             # another domain: slightly shifted / rotated / rescaled so that most of the old domain stays covered
             p = gen.rand_grid_params(rng, D, max_size=16 if D == 2 else 9, min_size=8 if D == 2 else 7, big_offset=False, route="center", direction="smallrot")
             p["direction"] = gen.f32(np.asarray(p["direction"]) @ ref.R).tolist()
@@ -365,6 +365,19 @@ def grid_op(ctx, rng, info, subj, hist, desc):
             g2 = gen.make_grid(p)
             desc.update(kind="other_domain", grid=p)
             bound_rel, floor = 0.5, 1e-4
+        else:
+            # same number of samples and same flag, but another region of the world: smaller, shifted, slightly rotated
+            p = gen.rand_grid_params(rng, D, max_size=8, min_size=5, big_offset=False, route="center", direction="smallrot", align_corners=g.align_corners())
+            p["size"] = [int(k) for k in g.size()]
+            p["direction"] = gen.f32(np.asarray(p["direction"]) @ ref.R).tolist()
+            ext = ref.s * ref.n
+            p["center"] = gen.f32(ref.c + rng.normal(size=D) * 0.03 * ext).tolist()
+            p["spacing"] = gen.f32(ref.s * rng.uniform(0.55, 0.8, size=D)).tolist()
+            g2 = gen.make_grid(p)
+            desc.update(kind="same_shape", grid=p)
+            bound_rel, floor = 0.5, 1e-4
+        if desc["kind"] in ("resize", "other_domain", "same_shape"):
+            ctx.bucket(f"grid_/{desc['kind']}")
     if subj.kind == "callable":
         # documented: only the grid attribute changes, the callable must return matching sizes
         return False
@@ -375,6 +388,18 @@ def grid_op(ctx, rng, info, subj, hist, desc):
         W = ref.points(idx, "grid", WORLD)
     else:
         W = ref.points(rng.uniform(-0.55, 0.55, size=(40, D)), cube_axes(g), WORLD)
+    W2 = None
+    if "FreeForm" not in subj.name and desc["kind"] in ("resize", "other_domain", "same_shape"):
+        # re-gridding samples the old (piecewise linear) field at the new sample positions: at those positions the
+        # old and the new transform must agree up to rounding (dense displacements), whatever the resolution
+        ref2 = gen.ref_of_grid(g2)
+        idx2 = np.stack([rng.integers(0, int(k), size=60) for k in g2.size()], axis=-1).astype(np.float64)
+        W2 = ref2.points(idx2, "grid", WORLD)
+        io = ref.points(W2, WORLD, "grid")  # inside the old sample lattice: between samples the field is interpolated,
+        inside_old = ((io >= 0.01) & (io <= ref.n - 1.01)).all(axis=-1)  # beyond them it is extrapolated (padding mode)
+        W2 = W2[inside_old]
+        if len(W2):
+            before2, in1b = world_disp(t, W2)
     before, in1 = world_disp(t, W)
     t.grid_(g2)
     hist.append(desc)
@@ -386,6 +411,14 @@ def grid_op(ctx, rng, info, subj, hist, desc):
     amp = float(np.abs(before).max()) + 1e-9
     if m.any():
         ctx.close(f"grid_change_preserves_world_deformation/{desc['kind']}/{subj.name}", after[:, m], before[:, m], bound_rel * amp + floor, key=f"grid_/{desc['kind']}/{subj.name}", history=list(hist), amplitude=amp, **info)
+    if W2 is not None and len(W2):
+        after2, in2b = world_disp(t, W2)
+        m2 = in1b & in2b
+        amp2 = float(np.abs(before2).max()) + 1e-9
+        if m2.any():
+            rel2 = 2e-3 if subj.name == "DisplacementFieldTransform" else 0.25
+            ctx.bucket(f"grid_/at_new_samples/{desc['kind']}")
+            ctx.close(f"grid_change_preserves_world_deformation_at_new_samples/{desc['kind']}/{subj.name}", after2[:, m2], before2[:, m2], rel2 * max(amp, amp2) + 1e-5, key=f"grid_/{desc['kind']}/{subj.name}", history=list(hist), amplitude=amp2, **info)
     ctx.true("grid_attribute_updated", t.grid() == g2 and t.grid().align_corners() == g2.align_corners(), key="grid_/attribute", **info)
     return True
 
